@@ -223,6 +223,8 @@ def probes():
         ('poll_gzip_case', 'GET', q + '&sid=$', {'headers': {'Accept-Encoding': 'GZIP, deflate'}}),
         ('get_unknown_deflate_case', 'GET', q + '&sid=nosuchsid-nosuchsid', {'headers': {'Accept-Encoding': 'br, Deflate;q=0.8, *;q=0'}}),
         ('open_gzip_q', 'GET', q, {'headers': {'Accept-Encoding': 'identity;q=0.1, gzip ; q=0.5'}}),
+        ('poll_gzip_bad_q', 'GET', q + '&sid=$', {'headers': {'Accept-Encoding': 'gzip;q=, deflate;q=high'}}),
+        ('open_bad_q', 'GET', q, {'headers': {'Accept-Encoding': 'br;q=1.0.0, gzip;q=-'}}),
         # a request without a Host header that carries forwarding headers (a proxy speaking HTTP/1.0 to the application server)
         ('poll_no_host_fwd', 'GET', q + '&sid=$', {'host': None, 'headers': {'X-Forwarded-Proto': 'https', 'Origin': 'https://pub.example'}}),
         ('open_no_host_fwd', 'GET', q, {'host': None, 'headers': {'X-Forwarded-Host': 'pub.example'}}),
